@@ -147,26 +147,28 @@ fn main() {
         }
         std::process::exit(0);
     }
-    (def.run)(&ctx);
+    // XV_ONLY_FUZZ: sensitivity experiments on the fuzz targets alone
+    if std::env::var_os("XV_ONLY_FUZZ").is_none() {
+        (def.run)(&ctx);
+    }
     // thorough tier: coverage-guided campaign on the property's libFuzzer target, same oracles
-    if let Some(plan) = fuzz_plan(&id) {
+    for plan in fuzz_plan(&id) {
         xv::fuzzdrv::campaign(&ctx, plan);
     }
     let code = ctx.finish(def.rule, def.assumptions);
     std::process::exit(code);
 }
 
-fn fuzz_plan(id: &str) -> Option<xv::fuzzdrv::FuzzPlan> {
+fn fuzz_plan(id: &str) -> Vec<xv::fuzzdrv::FuzzPlan> {
     use xv::fuzzdrv::FuzzPlan;
     let scale: u64 = std::env::var("XV_FUZZ_SCALE").ok().and_then(|s| s.parse().ok()).unwrap_or(100);
-    let p = |target, runs: u64, max_len| Some(FuzzPlan { target, runs: (runs * scale / 100).max(1000), max_len, jobs: 8 });
+    let p = |target, runs: u64, max_len| FuzzPlan { target, runs: (runs * scale / 100).max(1000), max_len, jobs: 8 };
     match id {
-        "C04" => p("chunker_diff", 1_500_000, 40_000),
-        "C06" => p("hash_text", 20_000_000, 1_024),
-        "C07" => p("xorb_roundtrip", 250_000, 40_000),
-        "C08" => p("xorb_validate", 250_000, 150_000),
-        "C09" => p("sorted_search", 120_000, 1_024),
-        _ => None,
+        "C04" => vec![p("chunker_diff", 1_500_000, 40_000)],
+        "C06" => vec![p("hash_text", 10_000_000, 1_024), p("merkle_tree", 300_000, 8_192)],
+        "C07" => vec![p("xorb_roundtrip", 250_000, 40_000)],
+        "C08" => vec![p("xorb_validate", 250_000, 150_000)],
+        "C09" => vec![p("sorted_search", 120_000, 1_024)],
+        _ => vec![],
     }
 }
-
